@@ -19,3 +19,7 @@ struct fn_val { int operator()(payload&); };
 struct cfn_void { void operator()(const payload&); };
 struct cfn_val { int operator()(const payload&); };
 }  // namespace vf
+namespace vf {
+/// abstract shared object type (SearchableObjectHolder, DelayedDestructor)
+struct obj { obj(); ~obj(); };
+}
